@@ -216,9 +216,6 @@ Proof.
   split; [assumption|]. lia.
 Qed.
 
-Lemma rhu_at_exact mant ex lp : lp <= ex -> rhu_at mant ex lp * 10 ^ lp = mant * 10 ^ ex \/ lp < 0 \/ True.
-Proof. auto. Qed.
-
 Lemma rhu_at_exact_val mant ex lp : lp <= ex -> rhu_at mant ex lp = mant * 10 ^ (ex - lp).
 Proof. intros. unfold rhu_at. destruct (Z.leb_spec lp ex); [reflexivity|lia]. Qed.
 
